@@ -2,12 +2,26 @@
 //   tymeh exec            : line protocol on stdin -> one response line per request
 //   tymeh enum <stream>   : stream a whole finite domain in canonical order
 // Err and panic both canonicalise to `refused`.
-mod ops;
-mod enums;
-mod ops2;
-mod enums2;
+// One module per property group; each exposes
+//   pub fn exec(op: &str, a: &[i64]) -> Option<Option<String>>   (None = op not mine; Some(None) = refused)
+//   pub fn run_enum(name: &str, args: &[String], w: &mut dyn Write) -> bool   (false = stream not mine)
+mod util;
+mod p01;
+// MODULES (keep this list and the two dispatch tables below in sync)
 
 use std::io::{self, BufRead, Write, BufWriter};
+
+pub fn dispatch_exec(op: &str, a: &[i64]) -> Option<String> {
+  if let Some(r) = p01::exec(op, a) { return r; }
+  // DISPATCH-EXEC
+  Some("bad-op".to_string())
+}
+
+pub fn dispatch_enum(name: &str, args: &[String], w: &mut dyn Write) -> bool {
+  if p01::run_enum(name, args, w) { return true; }
+  // DISPATCH-ENUM
+  false
+}
 
 fn main() {
   std::panic::set_hook(Box::new(|_| {}));
@@ -21,14 +35,17 @@ fn main() {
         let line = line.unwrap();
         let t = line.trim();
         if t.is_empty() { continue; }
-        let r = ops::exec_line(t);
+        let r = util::exec_line(t);
         writeln!(w, "{}", r).unwrap();
       }
     }
     Some("enum") => {
       let name = args.get(2).expect("stream name");
       let rest: Vec<String> = args[3..].to_vec();
-      enums::run(name, &rest, &mut w);
+      if !dispatch_enum(name, &rest, &mut w) {
+        eprintln!("unknown stream {}", name);
+        std::process::exit(2);
+      }
     }
     _ => {
       eprintln!("usage: tymeh exec | enum <stream> [args]");
